@@ -267,17 +267,19 @@ def main_stridefold(cases):
             continue
         n = new.shape[2] // src.shape[2]
         tot = new.shape[1] * n - src.shape[1]
-        found = -1
+        # every position at which the source kernel (padded with the zero point) is the folded kernel; more than one when the
+        # outer columns of the kernel hold the zero point themselves
+        founds = []
         for l in range(tot + 1):
             padded = np.pad(src, [(0, 0), (l, tot - l), (0, 0), (0, 0)], constant_values=zp)
             if (padded.reshape(new.shape) == new).all():
-                found = l
-                break
+                founds.append(l)
+        found = founds[0] if founds else -1
         from ethosu.vela.graph_optimiser_util import needed_total_padding
         real_pads = [int(needed_total_padding(w, sw, kw)) // 2,
                      int(needed_total_padding(w // n, int(res.attrs["stride_w"]), new.shape[1])) // 2] if same else [0, 0]
         out.append({"folded": 1, "n": int(n), "s": int(res.attrs["stride_w"]), "l": int(found), "r": int(tot - found) if found >= 0 else -1,
-                    "real_pads": real_pads,
+                    "real_pads": real_pads, "ls": founds,
                     "ifm": [int(v) for v in res.ifm_shapes[0].as_list()], "padding": str(res.attrs.get("padding")), "ofm_w": ofm_w, "zp": zp})
     os.rmdir(tmp)
     return out
